@@ -157,21 +157,12 @@ class Blake2(Blake):
         self.inner = inner
 
     def iterblocks(self,M,padding=False):
-        g = self.padmethod.iterblocks(M,padding=padding)
-        try:
-            blk = next(g)
-        except StopIteration:
-            blk = None
-        while (blk):
-            try: #forsee last block:
-                nextblk = next(g)
-            except StopIteration:
+        for blk in self.padmethod.iterblocks(M,padding=padding):
+            if self.padmethod.padflag:
                 # set f0 finalization flag (blk is last)
                 self.f[0]= -1
-                nextblk = None
             # input words are now in little-endian:
             yield Bits(blk,bitorder=1).split(self.wsize)
-            blk = nextblk
 
     def __call__(self,M,**kargs):
         self.initstate(**kargs)
